@@ -1,7 +1,7 @@
 (* The lemmas Props/C13.v and Props/C14.v state, in their final form. *)
-From GoRes Require Export Index.Spec Index.TaskQ Index.Handler.
+From GoRes Require Export Index.Spec Index.TaskQ Index.QHandler.
 From GoRes Require Import Index.ProofsOrder Index.ProofsSort Index.ProofsQuery Index.ProofsInv
-     Index.ProofsChange Index.ProofsHandler Index.ProofsTaskQ.
+     Index.ProofsChange Index.ProofsQHandler Index.ProofsQStep Index.ProofsTaskQ.
 Open Scope N_scope.
 
 Section Final.
@@ -116,24 +116,39 @@ Lemma affects_precise_pf : forall (q : iquery V) b a,
   affects_query q b a = false.
 Proof. exact ProofsChange.affects_precise_pf. Qed.
 
-Lemma handler_coherent_partial_pf : forall (idxs : list (index V)) (h : hconfig V) s d id a rid cq q,
-  names_ok idxs -> index_state idxs s d -> nul_free id = true ->
-  let b := st_get id s in
-  let c := (id, b, a) in
-  let s' := st_put id a s in
-  let d' := fst (update_idxs idxs id b a d false) in
-  h_rh h rid cq = Some q -> In (qidx q) idxs ->
-  (h_isquery h = false -> cq = []) ->
-  (affects_query q b a = true -> mem rid (announced h c) = true) ->
-  (h_isquery h = false -> forall r, In r (announced h c) -> h_rh h r [] <> None) ->
-  entries_nul_free (entries_of (qidx q) s) = true ->
-  entries_nul_free (entries_of (qidx q) s') = true ->
-  (qrev q = true -> db_bytes_ok d = true /\ db_bytes_ok d' = true) ->
-  ((qlimit q < 0)%Z -> (Z.of_nat (length d) < max_int)%Z /\ (Z.of_nat (length d') < max_int)%Z) ->
-  client_after idxs h d' c rid cq (fetch_collection d q) = fetch_collection d' q.
-Proof. exact ProofsHandler.handler_coherent_partial_pf. Qed.
+(* handler layer on badgerstore: eventual coherence over a whole change sequence *)
+Lemma handler_coherent_pf : forall (idxs : list (index V)) (h : qhandler (change V) (iquery V))
+    (rid cq : bytes) (q : iquery V) (cs : list (change V)) s d w',
+  names_ok idxs -> sub_query h rid cq = Some q -> In (qidx q) idxs ->
+  index_state idxs s d -> chain_ok s cs ->
+  (forall c, In c cs -> affects_query q (snd (fst c)) (snd c) = true -> memb rid (announced h c) = true) ->
+  (forall c, In c cs -> forall r, In r (announced h c) ->
+     h_resource h r = true /\ (is_query h = false -> plain_query h r <> None)) ->
+  (forall pre post, cs = pre ++ post -> data_ok q (fold_left apply_change pre s) (index_after idxs d pre)) ->
+  client_run idxs h rid cq d cs (fresh_get h d rid cq) w' ->
+  w' = fresh_get h (index_after idxs d cs) rid cq.
+Proof.
+  intros idxs h rid cq q cs s d w' Hn Hq Hin. apply (ProofsQHandler.handler_coherent_pf idxs h rid cq q Hn Hq Hin).
+Qed.
 
 End Final.
+
+(* any QueryStore, any of the transformers: one conversation served right after the change *)
+Lemma handler_step_coherent_pf : forall {St C Q} (qs : qstore St C Q) (h : qhandler C Q) (rid cq : bytes) (q : Q),
+  sub_query h rid cq = Some q ->
+  forall s s' c l l' evs reset,
+  qs_query qs s q = Some l -> qs_query qs s' q = Some l' ->
+  qs_events qs c q = Some (evs, reset) ->
+  (reset = false -> raw_apply evs l = Some l' /\ (forall f, h_trans h = TrModel f -> raw_nodup evs l)) ->
+  (evs <> [] -> type_fits h) ->
+  snd (handle_change qs h c) = HOk ->
+  NoDup (announced h c) ->
+  ((reset = true \/ evs <> []) -> In rid (announced h c)) ->
+  view_equiv (client_step qs h s' c rid cq (view_of_get (get_resource qs h s rid cq)))
+             (view_of_get (get_resource qs h s' rid cq)).
+Proof. intros St C Q qs h rid cq q Hq. apply (ProofsQStep.handler_step_coherent_pf qs h rid cq q Hq). Qed.
+
+
 
 Definition affects_precise_nilkey_refuted_pf := ProofsChange.affects_precise_nilkey_refuted_pf.
 Definition nul_key_order_refuted_pf := ProofsQuery.nul_key_order_refuted_pf.
